@@ -5,12 +5,25 @@ from vlib.runner import SubCheck
 PROPERTY = "C20"
 RULE = ("Generated operation histories (lists of ops interpreted against the implementation and a naive model, "
         "oracle after every step; keys also passed as fresh temporaries equal to the stored elements, the structure cloned by "
-        "copy / deepcopy / pickle mid-history, priorities as floats or Python ints of any size). union-find: non-trivial = history contains a union joining two blocks that both "
+        "copy / deepcopy / pickle mid-history, priorities as floats or Python ints of any size). The first step of a union-find history is the "
+        "constructor: its `elements` argument is given as list / tuple / set / frozenset / range / dict / dict keys view / dict values view / deque / "
+        "one-shot iterator / generator / lazy map / None / omitted (label elements-as=...), the structure is compared with what that iterable yields "
+        "right after construction, and in a quarter of the cases the caller's mutable container is changed afterwards (an element removed, a new one "
+        "added), which must not show in the structure. Scenarios: free (random ops), tournament (partial balanced tournament of unions over 8 elements), "
+        "deep (complete tournament over 8..16 elements naming the block representatives, i.e. uncompressed internal trees of depth 3..4, elements inserted "
+        "deepest-first / in random order / shallowest-first / by the unions themselves, sparse read-out, and the FIRST query after the union chain drawn from "
+        "components / mapping / roots / component / find / connected / counts / membership / a clone followed by a query; label first-query-after-union-chain=... "
+        "counts, for every scenario, which query came first after >= 3 merging unions). "
+        "union-find: non-trivial = history contains a union joining two blocks that both "
         "have >=2 elements followed by a query; queue: non-trivial = two pending items tie on priority when one of them is "
         "popped. distinct = distinct realised histories.")
 ASSUMPTIONS = ["elements are hashable immutable values (ints of any size, tuples, strings), also passed as temporaries equal to the stored ones",
                "priorities are floats without NaN or Python ints of any size (compared exactly, as Python does)",
-               "a union-find that went through copy.copy / copy.deepcopy / pickle is held to the same oracles as the original"]
+               "a union-find that went through copy.copy / copy.deepcopy / pickle is held to the same oracles as the original",
+               "the constructor accepts any finite iterable of elements (the docstring says 'container'; the code and in-repo callers use lists and ranges, "
+               "and iterators / generators are accepted today): it holds exactly the elements the iterable yields, first occurrence order, also when the "
+               "iterable can be traversed only once",
+               "the structure does not alias the caller's container: changing that container after the construction does not change the partition"]
 
 
 # --------------------------------------------------------------------------------- union-find
@@ -38,13 +51,94 @@ TUP_POOL = st.sampled_from([["t", 0, 1], ["t", 1, 0], ["t", 2, 3], ["t", 0], ["t
                             ["t", ["t", 0, 1], 2]])
 
 
-def uf_ops(pool):
+def uf_ops(pool, max_size=60):
     one = st.tuples(st.sampled_from(["add", "find", "component", "in"]), pool).map(list)
     two = st.tuples(st.sampled_from(["union", "union", "union", "connected"]), pool, pool).map(list)
     zero = st.sampled_from([["components"], ["mapping"], ["roots"], ["len"], ["counts"], ["fresh"], ["fresh"],
                             ["clone", "copy"], ["clone", "deepcopy"], ["clone", "pickle"]])
     idx = st.tuples(st.just("index"), st.integers(-2, 12)).map(list)
-    return st.lists(st.one_of(one, two, two, two, zero, zero, idx), min_size=1, max_size=60)
+    return st.lists(st.one_of(one, two, two, two, zero, zero, idx), min_size=1, max_size=max_size)
+
+
+# the constructor's `elements` argument: every form of finite iterable a caller may hand over. "range" needs consecutive ints and
+# "none" / "noarg" an empty start (otherwise they fall back to "list"); iterator / generator / map can be traversed only ONCE
+INIT_FORMS = ["list", "list", "tuple", "set", "frozenset", "range", "range", "dict", "dict_keys", "dict_values", "deque",
+              "iterator", "generator", "map", "iterator", "generator", "none", "noarg"]
+ONE_SHOT = ("iterator", "generator", "map")
+MUTABLE_SOURCES = ("list", "set", "dict", "dict_keys", "dict_values", "deque")
+LATE = "__late__"        # an element that is in no pool: put into the caller's container AFTER the constructor returned
+
+VALUES16 = {"int": list(range(14)) + [2 ** 40, -1],
+            "str": ["a", "b", "c", "dd", "e", "", "xyz", "0", "f", "g", "hh", "i", "j", "kk", "1", "ab"],
+            "tuple": [["t", 0, 1], ["t", 1, 0], ["t", 2, 3], ["t", 0], ["t"], ["t", 1, 2, 3], ["t", "a", 1], ["t", 4, 5], ["t", ["t", 0, 1], 2],
+                      ["t", 5, 4], ["t", 6, 7], ["t", 7, 6], ["t", 8], ["t", 9, 9], ["t", "b"], ["t", ["t"], 0]],
+            "mixed": [0, 1, 2, 3, "a", "b", "c", "xyz", ["t", 0, 1], ["t"], ["t", 1, 0], 7, 8, "0", ["t", 0], ""]}
+
+
+def deep_forest(draw, kind):
+    """Scenario "deep": a complete tournament of unions over n elements (equal-size merges; the unions name the current
+    representatives, so that no path is shortened on the way) leaves internal trees of depth log2(n) = 3..4. The elements are
+    handed to the constructor in a drawn order RELATIVE TO THEIR DEPTH (deepest first / random / shallowest first / not at all, i.e.
+    inserted by the unions), because every bulk query walks the elements in insertion order. The first query after the union chain
+    is drawn from every query type. The small simulation below (weighted quick union with path halving, as the class docstring
+    describes) only steers the generation; no oracle depends on it."""
+    n = draw(st.sampled_from([8, 8, 8, 9, 12, 16]))
+    vals = list(draw(st.permutations(VALUES16[kind])))
+    elems, spare = vals[:n], vals[n:]
+    par, siz = list(range(n)), [1] * n
+
+    def find(p):
+        while p != par[p]:
+            q = par[p]; par[p] = par[q]; p = q
+        return p
+
+    def root(p):
+        while p != par[p]:
+            p = par[p]
+        return p
+
+    name_roots = draw(st.integers(0, 4)) > 0
+    blocks = [[i] for i in range(n)]
+    tour = []
+    while len(blocks) > 1:
+        nxt = []
+        for i in range(0, len(blocks) - 1, 2):
+            A, B = blocks[i], blocks[i + 1]
+            a = root(A[0]) if name_roots else A[draw(st.integers(0, len(A) - 1))]
+            b = root(B[0]) if name_roots else B[draw(st.integers(0, len(B) - 1))]
+            if draw(st.booleans()):
+                a, b = b, a
+            tour.append(["union", elems[a], elems[b]])
+            ra, rb = find(a), find(b)
+            if siz[ra] < siz[rb]:
+                par[ra] = rb; siz[rb] += siz[ra]
+            else:
+                par[rb] = ra; siz[ra] += siz[rb]
+            nxt.append(A + B)
+        if len(blocks) % 2:
+            nxt.append(blocks[-1])
+        blocks = nxt
+
+    def depth(i):
+        d = 0
+        while par[i] != i:
+            i = par[i]; d += 1
+        return d
+
+    order = draw(st.sampled_from(["deep-first", "deep-first", "perm", "perm", "natural", "shallow-first"]))
+    idx = list(range(n))
+    if order == "deep-first":
+        idx.sort(key=lambda i: -depth(i))
+    elif order == "shallow-first":
+        idx.sort(key=depth)
+    init = [] if order == "natural" else [elems[i] for i in idx]
+    for e in spare[:draw(st.integers(0, 2))]:          # a few elements that stay alone
+        init.insert(draw(st.integers(0, len(init))), e)
+    x, y = elems[draw(st.integers(0, n - 1))], elems[draw(st.integers(0, n - 1))]
+    first = draw(st.sampled_from([[["components"]], [["components"]], [["mapping"]], [["mapping"]], [["roots"]], [["component", x]],
+                                  [["find", x]], [["connected", x, y]], [["counts"]], [["in", x]], [],
+                                  [["clone", "deepcopy"], ["components"]], [["clone", "pickle"], ["mapping"]], [["clone", "copy"], ["component", x]]]))
+    return init, tour + first, elems
 
 
 @st.composite
@@ -52,9 +146,22 @@ def uf_case(draw):
     kind = draw(st.sampled_from(["int", "str", "tuple", "mixed"]))
     pool = {"int": INT_POOL, "str": STR_POOL, "tuple": TUP_POOL,
             "mixed": st.one_of(INT_POOL, STR_POOL, TUP_POOL)}[kind]
+    init_form = draw(st.sampled_from(INIT_FORMS))
+    scenario = draw(st.sampled_from(["free", "free", "free", "tournament", "tournament", "deep", "deep", "deep"]))
+    if scenario == "deep":
+        init, pre, elems = deep_forest(draw, kind)
+        own = st.sampled_from(elems)
+        return {"kind": kind, "init": init, "init_form": init_form, "mutate_input": draw(st.integers(0, 3)) == 0, "scenario": scenario,
+                "ops": pre + draw(uf_ops(st.one_of(own, own, pool), max_size=14)),
+                "readout": "sparse", "order": draw(st.integers(0, 5))}
     init = draw(st.lists(pool, max_size=5))
+    if init_form == "range" or (kind == "int" and draw(st.integers(0, 5)) == 0):
+        a = draw(st.integers(0, 3))
+        init = list(range(a, a + draw(st.integers(1, 8))))
+    if init_form in ("none", "noarg") and draw(st.booleans()):
+        init = []
     pre = draw(st.lists(st.tuples(st.just("union"), pool, pool).map(list), max_size=12))
-    if draw(st.booleans()):
+    if scenario == "tournament":
         # balanced "tournament" of unions over 8 distinct elements in a drawn order: equal-size merges are what makes the
         # internal trees deep (depth 3 after three rounds); which member of each block is named in the union is drawn too
         values = {"int": list(range(10)), "str": ["a", "b", "c", "dd", "e", "", "xyz", "0"],
@@ -82,7 +189,8 @@ def uf_case(draw):
     # readout: "every" = full read-out after every step; "sparse" = only after query ops and at the end, so that chains of
     # unions are NOT interleaved with finds (deep, uncompressed trees survive until the first query); order = which part of
     # the read-out comes first
-    return {"kind": kind, "init": init, "ops": pre + draw(uf_ops(pool)),
+    return {"kind": kind, "init": init, "init_form": init_form, "mutate_input": draw(st.integers(0, 3)) == 0, "scenario": scenario,
+            "ops": pre + draw(uf_ops(pool)),
             "readout": draw(st.sampled_from(["every", "sparse", "sparse"])), "order": draw(st.integers(0, 5))}
 
 
@@ -125,7 +233,7 @@ class PartitionModel:
         return c
 
 
-def observe_partition(uf, ctx, model, where, order=0):
+def observe_partition(uf, ctx, model, where, order=0, chain=None):
     """Full read-out of the implementation compared with the model; must not change anything. The parts are issued in a
     case-dependent order: each of them can be the first query after a chain of unions."""
     ctx.check(len(uf) == len(model.order) and uf.n_elts == len(model.order), "uf:count", f"{where}: len={len(uf)} n_elts={uf.n_elts} model={len(model.order)}")
@@ -186,20 +294,96 @@ def observe_partition(uf, ctx, model, where, order=0):
 
     parts = [part_components, part_connected, part_roots, part_mapping, part_component, part_fresh]
     k = order % len(parts)
+    if chain is not None:
+        if chain[0] >= 3:
+            ctx.label("first-query-after-union-chain=" + ["components", "connected", "roots", "mapping", "component", "find"][k])
+        chain[0] = 0
     for part in parts[k:] + parts[:k]:
         part()
+
+
+def make_elements(form, init):
+    """The constructor argument in the requested form -> (form really used, argument, elements in the order the argument yields
+    them, the caller's mutable container behind the argument or None)."""
+    import collections
+    if form == "range" and not (init and all(type(e) is int for e in init) and init == list(range(init[0], init[0] + len(init)))):
+        form = "list"
+    if form in ("none", "noarg") and init:
+        form = "list"
+    if form == "list":
+        src = list(init)
+        return form, src, list(src), src
+    if form == "tuple":
+        return form, tuple(init), list(init), None
+    if form == "deque":
+        src = collections.deque(init)
+        return form, src, list(init), src
+    if form in ("set", "frozenset"):
+        src = set(init) if form == "set" else frozenset(init)
+        return form, src, list(src), (src if form == "set" else None)      # iteration order of an unmodified set is stable
+    if form == "range":
+        return form, range(init[0], init[0] + len(init)), list(init), None
+    if form in ("dict", "dict_keys"):
+        src = dict.fromkeys(init)
+        return form, (src if form == "dict" else src.keys()), list(src), src
+    if form == "dict_values":
+        src = dict(enumerate(init))
+        return form, src.values(), list(init), src
+    if form == "iterator":
+        return form, iter(list(init)), list(init), None
+    if form == "generator":
+        return form, (e for e in list(init)), list(init), None
+    if form == "map":
+        return form, map(rebuild, list(init)), list(init), None      # keys built lazily, one temporary at a time
+    if form == "none":
+        return form, None, [], None
+    if form == "noarg":
+        return form, None, [], None
+    raise ValueError("unknown form of the elements argument: %r" % (form,))
 
 
 def fn_uf(case, ctx):
     from mouette.utils import UnionFind
     model = PartitionModel()
     init = [dec(e) for e in case["init"]]
-    uf = UnionFind(init) if init else UnionFind()
-    for e in init:
+    form, arg, yielded, source = make_elements(case.get("init_form", "list"), init)
+    if form == "noarg":
+        ok, uf = ctx.call("uf:construct", UnionFind)
+    else:
+        ok, uf = ctx.call("uf:construct", UnionFind, arg)
+    if not ok:
+        return
+    for e in yielded:
         model.add(e)
-    ctx.label("kind=" + case["kind"], "readout=" + case.get("readout", "every"))
+    ctx.label("kind=" + case["kind"], "readout=" + case.get("readout", "every"), "scenario=" + case.get("scenario", "saved-input"),
+              "elements-as=" + form + ("" if init else "(empty)"))
+    if form in ONE_SHOT and len(model.order) >= 2:
+        ctx.label("elements-from-one-shot-iterable")
+    if case.get("mutate_input") and source is not None:
+        # the caller goes on using ITS container: the structure holds what the constructor was given, whatever happens to that
+        # container afterwards (the partition only changes through add / union)
+        ctx.label("input-container-changed-after-construction")
+        if isinstance(source, dict):
+            if source:
+                source.pop(next(iter(source)))
+            source[LATE] = LATE
+        elif isinstance(source, set):
+            if source:
+                source.pop()
+            source.add(LATE)
+        else:
+            if source:
+                source.pop()
+            source.append(LATE)
+    if case.get("init_form") is not None:
+        # the structure right after construction, before any other operation
+        ctx.check(len(uf) == len(model.order), "uf:count", f"UnionFind(<{form} yielding {yielded!r}>): len={len(uf)}, expected {len(model.order)}")
+        for e in model.order:
+            ctx.check(e in uf, "uf:contains", f"UnionFind(<{form} yielding {yielded!r}>): {e!r} is not in the structure")
+        ctx.check(LATE not in uf, "uf:contains", f"UnionFind(<{form} yielding {yielded!r}>): contains {LATE!r}, which was put into the caller's container after the construction")
     big_union = False
     frozen = []
+    chain = [0]       # number of merging unions since the last query that walks the internal trees
     for step, op in enumerate(case["ops"]):
         name = op[0]
         args = [dec(a) for a in op[1:]]
@@ -221,6 +405,8 @@ def fn_uf(case, ctx):
             else:
                 ctx.call("uf:union", uf.union, x, y)
             r = model.union(x, y)
+            if r:
+                chain[0] += 1
             if r and min(r) >= 2:
                 big_union = True
                 ctx.label("big-union")
@@ -313,13 +499,17 @@ def fn_uf(case, ctx):
                     ctx.fail("uf:getitem-oob", f"{where}: no IndexError")
                 except IndexError:
                     pass
+        if name in ("components", "mapping", "roots") or (name in ("find", "connected", "component") and all(model.has(a) for a in args)):
+            if chain[0] >= 3:
+                ctx.label("first-query-after-union-chain=" + name)
+            chain[0] = 0
         if name not in ("add", "union"):
             ctx.check(model.snapshot() == before, "harness", "model changed by a query")
         # queries never change the partition; the whole read-out agrees with the model (after every step, or - "sparse" -
         # only after query operations, so that union chains are not interleaved with path-compressing finds)
         if case.get("readout", "every") == "every" or name not in ("add", "union", "clone"):
-            observe_partition(uf, ctx, model, where, case.get("order", 0) + step)
-    observe_partition(uf, ctx, model, "end of history", case.get("order", 0))
+            observe_partition(uf, ctx, model, where, case.get("order", 0) + step, chain)
+    observe_partition(uf, ctx, model, "end of history", case.get("order", 0), chain)
     for old, old_model, what in frozen:
         observe_partition(old, ctx, old_model, what + " (read at the end of the history)", case.get("order", 0))
 
